@@ -535,6 +535,72 @@ class Facts:
                 continue
             out.append((old, pick[0]))
             taken.add(pick[0])
+        # an impl block that moved to another module than its type is printed by rustc as `module::<impl Trait for Type>::m` instead of
+        # `<Type as Trait>::m` (and an inherent one as `module::<impl Type>::m` instead of `Type::m`): the same item, followed by its canonical form
+        def canon(d):
+            """(impl prefix as written, canonical key) of a def path, or None when it is not inside an impl"""
+            i = d.find('::<impl ')
+            if i >= 0:
+                depth, j = 0, i + 2
+                while j < len(d):
+                    if d[j] == '<':
+                        depth += 1
+                    elif d[j] == '>' and d[j - 1] != '-':
+                        depth -= 1
+                        if depth == 0:
+                            break
+                    j += 1
+                inner = d[i + 8:j]
+                k, dep = -1, 0
+                for x in range(len(inner)):
+                    if inner[x] == '<':
+                        dep += 1
+                    elif inner[x] == '>':
+                        dep -= 1
+                    elif dep == 0 and inner.startswith(' for ', x):
+                        k = x
+                        break
+                start = i
+                while start > 0 and (d[start - 1].isalnum() or d[start - 1] in '_:'):
+                    start -= 1
+                key = ('trait', inner[k + 5:], inner[:k]) if k >= 0 else ('inherent', inner, None)
+                return d[start:j + 1], key, d[j + 1:]
+            if d.startswith('<') and ' as ' in d:
+                depth = 0
+                for j, ch in enumerate(d):
+                    if ch == '<':
+                        depth += 1
+                    elif ch == '>' and d[j - 1] != '-':
+                        depth -= 1
+                        if depth == 0:
+                            inner = d[1:j]
+                            dep = 0
+                            for x in range(len(inner)):
+                                if inner[x] == '<':
+                                    dep += 1
+                                elif inner[x] == '>':
+                                    dep -= 1
+                                elif dep == 0 and inner.startswith(' as ', x):
+                                    return d[:j + 1], ('trait', inner[:x], inner[x + 4:]), d[j + 1:]
+                            return None
+            return None
+        cur_impl = {}
+        for c in unknown:
+            cc_ = canon(c)
+            if cc_ and not c.startswith('<<'):
+                cur_impl.setdefault((cc_[1], cc_[2]), []).append((c, cc_[0]))
+        seen_prefix = set()
+        for old in sorted(base):
+            if old in self.fns or old.startswith('<<') or old.split('::')[0].lstrip('<') not in self.crates:
+                continue
+            co = canon(old)
+            if not co:
+                continue
+            hit = cur_impl.get((co[1], co[2])) or []
+            if len(hit) == 1 and hit[0][1] != co[0] and (co[0], hit[0][1]) not in seen_prefix:
+                seen_prefix.add((co[0], hit[0][1]))
+                out.append((co[0], hit[0][1]))
+                taken.add(hit[0][0])
         # a private function that was renamed (or moved) AND given another signature is recognised by what it calls: the missing anchor and the one
         # newcomer of its crate whose callee set is clearly the most similar (Jaccard >= 0.6, runner-up at least 0.15 behind, both with >= 4 callees)
         def fp(d):
